@@ -414,10 +414,14 @@ Record iter := mkIter {
   bi_keys : list (bytes * bytes);           (* batchIterator.keys with m, ascending *)
   bi_ptr : Z;
   bi_start : bytes;
-  bi_limit : option bytes
+  bi_limit : option bytes;
+  bi_lower : bytes;                         (* batchIterator.lower: the range's start, fixed at creation *)
+  it_clamp : bool                           (* true: the repaired batchIterator (Seek / Reset go through from());
+                                               false: the code as first found (they take the seek key as it is) *)
 }.
-(* levelBucket.NewIterator(&Range{start, limit}); a nil slice is Range{nil, nil} *)
-Definition new_iterator (s : store) (ob : option batch) (h : handle) (start limit : bytes) : iter :=
+(* levelBucket.NewIterator(&Range{start, limit}); a nil slice is Range{nil, nil}.
+   [clamp] selects the repaired batchIterator (true) or the one first found (false). *)
+Definition new_iterator_gen (clamp : bool) (s : store) (ob : option batch) (h : handle) (start limit : bytes) : iter :=
   let istart := inner_key (h_path h) start in
   let ilimit := match limit with
                 | [] => bp_limit (inner_key (h_path h) [])
@@ -427,7 +431,9 @@ Definition new_iterator (s : store) (ob : option batch) (h : handle) (start limi
          (match ob with None => true | Some _ => false end)
          (range_entries s istart ilimit) SOI false
          (match ob with None => [] | Some b => net_puts_by_prefix b [] end)
-         (-1) istart ilimit.
+         (-1) istart ilimit istart clamp.
+(* the code as it is now *)
+Definition new_iterator : store -> option batch -> handle -> bytes -> bytes -> iter := new_iterator_gen true.
 
 Fixpoint find_ge (k : bytes) (ents : list (bytes * bytes)) (i : nat) : option nat :=
   match ents with
@@ -454,13 +460,22 @@ Fixpoint bi_scan (start : bytes) (limit : option bytes) (keys : list (bytes * by
 Definition bi_len (it : iter) : Z := Z.of_nat (length (bi_keys it)).
 Definition bi_end (it : iter) : bool := bi_len it <=? bi_ptr it.
 Definition set_batch (it : iter) (ptr : Z) (start : bytes) : iter :=
-  mkIter (it_pl it) (it_path it) (it_ro it) (it_ents it) (it_pos it) (it_end it) (bi_keys it) ptr start (bi_limit it).
+  mkIter (it_pl it) (it_path it) (it_ro it) (it_ents it) (it_pos it) (it_end it) (bi_keys it) ptr start (bi_limit it)
+         (bi_lower it) (it_clamp it).
 Definition set_ldb (it : iter) (pos : lpos) (e : bool) : iter :=
-  mkIter (it_pl it) (it_path it) (it_ro it) (it_ents it) pos e (bi_keys it) (bi_ptr it) (bi_start it) (bi_limit it).
+  mkIter (it_pl it) (it_path it) (it_ro it) (it_ents it) pos e (bi_keys it) (bi_ptr it) (bi_start it) (bi_limit it)
+         (bi_lower it) (it_clamp it).
+(* batchIterator.from: the position a Seek or Reset to [k] starts at — k, or the lower bound of the range when k
+   lies below it (bytes.Compare on the inner keys) *)
+Definition bi_from (it : iter) (k : bytes) : bytes := if blt k (bi_lower it) then bi_lower it else k.
+(* ... in the repaired code; the code as first found took k itself *)
+Definition bi_pos (it : iter) (k : bytes) : bytes := if it_clamp it then bi_from it k else k.
+(* batchIterator.Seek *)
 Definition bi_seek (it : iter) (ik : bytes) : bool * iter :=
-  match bi_scan ik (bi_limit it) (bi_keys it) 0 0 with
-  | Some i => (true, set_batch it i ik)
-  | None => (false, set_batch it (bi_len it) ik)
+  let k0 := bi_pos it ik in
+  match bi_scan k0 (bi_limit it) (bi_keys it) 0 0 with
+  | Some i => (true, set_batch it i k0)
+  | None => (false, set_batch it (bi_len it) k0)
   end.
 Definition bi_next (it : iter) : bool * iter :=
   match bi_scan (bi_start it) (bi_limit it) (bi_keys it) 0 (bi_ptr it + 1) with
@@ -471,7 +486,7 @@ Definition bi_next (it : iter) : bool * iter :=
 Definition iter_seek (it : iter) (key : bytes) : bool * iter :=
   let ik := inner_key (it_path it) key in
   let '(sk, pos) := ldb_seek it ik in
-  if sk then (true, if it_ro it then set_ldb it pos false else set_batch (set_ldb it pos false) (-1) ik)
+  if sk then (true, if it_ro it then set_ldb it pos false else set_batch (set_ldb it pos false) (-1) (bi_pos it ik))
   else let it1 := set_ldb it pos true in
        if it_ro it then (false, it1) else bi_seek it1 ik.
 (* levelIterator.Next *)
@@ -794,6 +809,19 @@ Definition step_gen (snap : bool) (st : state) (o : op) : state * res :=
   | OBytesPrefix p => let '(a, l) := bytes_prefix p in (st, RRange a l)
   end.
 
-(* the code as it is now (read transactions read one snapshot) and as it was first found *)
+(* the code as it is now (read transactions read one snapshot; batchIterator.Seek / Reset never go below the range's
+   start) and as it was first found (reads of a read transaction not from one snapshot) *)
 Definition step : state -> op -> state * res := step_gen true.
 Definition step_unrepaired : state -> op -> state * res := step_gen false.
+
+(* the batchIterator as first found (Seek / Reset take the seek key as it is, also below the range's start): the same
+   step, every iterator carrying [it_clamp = false].  The switch is a field of the iterator that no operation changes,
+   so clearing it after every step is creating every iterator with [new_iterator_gen false]. *)
+Definition it_unclamp (it : iter) : iter :=
+  mkIter (it_pl it) (it_path it) (it_ro it) (it_ents it) (it_pos it) (it_end it) (bi_keys it) (bi_ptr it) (bi_start it)
+         (bi_limit it) (bi_lower it) false.
+Definition unclamp_all (st : state) : state :=
+  with_is st (map (fun o : option (bool * iter) =>
+                     match o with Some (w, it) => Some (w, it_unclamp it) | None => None end) (st_is st)).
+Definition step_seek_unrepaired (st : state) (o : op) : state * res :=
+  let '(st', r) := step_gen true st o in (unclamp_all st', r).
